@@ -393,3 +393,14 @@ theorem get_mask_F {α} (ra : RA α) (h : WF ra) (fast : Bool) (m : RA Bool) (hm
   rfl
 
 end Ens.Ragged
+
+namespace Ens.Ragged
+open Ens
+
+theorem get_elem_F_of_convert_error {α} (ra : RA α) (fast : Bool) (i j : Int) (e : Err)
+    (h : convertOne ra.lengths (i, j) = .error e) :
+    getItemF ra fast (.two (.int i) (.int j)) = .error e := by
+  simp only [getItemF, pairedF, idxArr, pairedCoreF_col, gather, convertFrom2d, List.map_cons, List.map_nil,
+    mapE_cons, h, bindE_error]
+
+end Ens.Ragged
